@@ -174,7 +174,7 @@ impl Prop for C04 {
         ]
     }
     fn run_shard(&self, ctx: &mut Ctx<'_>) {
-        let n = ctx.budget(120_000, 3_000_000);
+        let n = ctx.budget(120_000, 15_000_000);
         for i in 0..n {
             if i % 32 == 0 && ctx.should_stop() {
                 break;
